@@ -144,6 +144,20 @@ pub fn pipeline_opt(bytes: &[u8], key: u64, st: &mut Stats, light: bool) -> Chec
         }
     }
     let reached = std::cell::Cell::new(false);
+    // the convenience constructors must be as total as `new`
+    let variants = mapper_variants(bytes).map_err(|f| Fail::new("pipeline-panic", f.msg))?;
+    guarded(|| {
+        for (v, _) in variants.iter().skip(3) {
+            for c in classes.iter().take(4) {
+                let _ = v.class(c);
+                for m in methods.iter().take(3) {
+                    let _ = v.frame_line(c, m, 1, None);
+                    let _ = v.frame_params(c, m, "");
+                }
+            }
+        }
+    })
+    .map_err(|p| Fail::new("pipeline-panic", format!("mapper built with From<&str>: {p}")))?;
     let impls: [&dyn Retracer; 3] = [&m_plain, &m_params, &cache];
     for r in impls {
         guarded(|| -> Check {
